@@ -190,7 +190,7 @@ def resolve_strategy_inline_attachments(base_path, attachments, decisions):
             # Not merging attachment contents, but adding attachments
             # with new names LOCAL_oldname and REMOTE_oldname instead.
 
-            base = attachments[key]
+            base = attachments.get(key)
 
             if ld.op == DiffOp.ADD:
                 assert rd.op == DiffOp.ADD
